@@ -1,6 +1,741 @@
-//! C16 — not built yet.
-use mcx::{Ctx, Value};
-pub fn run(_ctx: &Ctx, _replay: Option<&Value>) -> i32 {
-    eprintln!("C16: check not built yet");
-    2
+//! C16 — standard-library integer arithmetic is exact.
+//!
+//! Space (bounded-exhaustive, nothing sampled):
+//!  * every exported procedure of `std::math::u64` (the list is read from the loaded StdLibrary and
+//!    must coincide with the list this module has a reference for — otherwise exit 2):
+//!      - 20 binary procedures x all (a, b) with the 4 limbs over the limb alphabet
+//!        (7 values => 2401 pairs in quick, 16 values => 65536 pairs in thorough); for div / mod /
+//!        divmod the pairs with b = 0 must fail;
+//!      - shl / shr / rotl / rotr x every amount 0..=63 x a value set built from the limb alphabet
+//!        (all limb pairs; thorough adds single-bit, run-of-ones and all-but-one-bit values);
+//!      - eqz / clz / ctz / clo / cto x all limb pairs, every single-bit value, every run of ones,
+//!        every all-ones-but-one-bit value;
+//!  * every exported procedure of `std::math::u256` x the square of a 39-value (quick) operand set
+//!    (thorough: plus every 2^k and every 2^(k+1) - 1, 536 values).
+//! Each case runs `begin exec.<module>::<proc> end` (assembled once per procedure) on the real VM
+//! with the operands on top of >= 12 pairwise distinct sentinel elements; the *whole* final stack is
+//! compared with `reference result ++ sentinels ++ zeros`. References are plain Rust
+//! u64 / u128 / num-bigint arithmetic written from the doc comments of the procedures
+//! (docs/src/user_docs/stdlib/math/u64.md and the `#!` comments of u64.masm / u256.masm).
+//! Only valid u32 limbs are fed (most procedures document "undefined" otherwise).
+
+use crate::common::*;
+use mcx::{guard, json, Ctx, Tier, Value};
+use num_bigint::BigUint;
+use processor::Program;
+use rayon::prelude::*;
+use std::collections::{BTreeMap, BTreeSet};
+use std::sync::atomic::{AtomicU64, Ordering};
+
+const M32: u64 = 0xFFFF_FFFF;
+
+/// pairwise distinct, none of them a valid u32 (so a stray u32 operation on them fails or shows)
+const SENT: [u64; 14] = [
+    0xC0DE_0100_0101_0101,
+    0xC0DE_0200_0202_0202,
+    0xC0DE_0300_0303_0303,
+    0xC0DE_0400_0404_0404,
+    0xC0DE_0500_0505_0505,
+    0xC0DE_0600_0606_0606,
+    0xC0DE_0700_0707_0707,
+    0xC0DE_0800_0808_0808,
+    0xC0DE_0900_0909_0909,
+    0xC0DE_0A00_0A0A_0A0A,
+    0xC0DE_0B00_0B0B_0B0B,
+    0xC0DE_0C00_0C0C_0C0C,
+    0xC0DE_0D00_0D0D_0D0D,
+    0xC0DE_0E00_0E0E_0E0E,
+];
+
+const LIMBS7: [u64; 7] = [0, 1, 2, 1 << 16, 1 << 31, M32 - 1, M32];
+const LIMBS16: [u64; 16] = [
+    0, 1, 2, 3, 0xFFFF, 0x1_0000, 0x1_0001, 0x7FFF_FFFF, 0x8000_0000, 0x8000_0001, 0x5555_5555, 0xAAAA_AAAA,
+    0xFFFF_0000, 0xFFFF_FFFD, 0xFFFF_FFFE, 0xFFFF_FFFF,
+];
+
+#[derive(Clone, Copy, PartialEq, Eq, Debug)]
+enum Kind {
+    /// [b_hi, b_lo, a_hi, a_lo, ...]
+    Bin,
+    /// [a_hi, a_lo, ...] -> one element
+    Un,
+    /// [b, a_hi, a_lo, ...]
+    Shift,
+    /// [b7..b0, a7..a0, ...]
+    Bin256,
+    /// [a7..a0, ...]
+    Un256,
+}
+
+const U64_PROCS: [(&str, Kind); 29] = [
+    ("overflowing_add", Kind::Bin),
+    ("wrapping_add", Kind::Bin),
+    ("wrapping_sub", Kind::Bin),
+    ("overflowing_sub", Kind::Bin),
+    ("wrapping_mul", Kind::Bin),
+    ("overflowing_mul", Kind::Bin),
+    ("lt", Kind::Bin),
+    ("gt", Kind::Bin),
+    ("lte", Kind::Bin),
+    ("gte", Kind::Bin),
+    ("eq", Kind::Bin),
+    ("neq", Kind::Bin),
+    ("eqz", Kind::Un),
+    ("min", Kind::Bin),
+    ("max", Kind::Bin),
+    ("div", Kind::Bin),
+    ("mod", Kind::Bin),
+    ("divmod", Kind::Bin),
+    ("and", Kind::Bin),
+    ("or", Kind::Bin),
+    ("xor", Kind::Bin),
+    ("shl", Kind::Shift),
+    ("shr", Kind::Shift),
+    ("rotl", Kind::Shift),
+    ("rotr", Kind::Shift),
+    ("clz", Kind::Un),
+    ("ctz", Kind::Un),
+    ("clo", Kind::Un),
+    ("cto", Kind::Un),
+];
+
+const U256_PROCS: [(&str, Kind); 8] = [
+    ("add_unsafe", Kind::Bin256),
+    ("sub_unsafe", Kind::Bin256),
+    ("and", Kind::Bin256),
+    ("or", Kind::Bin256),
+    ("xor", Kind::Bin256),
+    ("iszero_unsafe", Kind::Un256),
+    ("eq_unsafe", Kind::Bin256),
+    ("mul_unsafe", Kind::Bin256),
+];
+
+// ------------------------------------------------------------------------------------------------
+// reference (plain integer arithmetic)
+// ------------------------------------------------------------------------------------------------
+
+#[derive(Clone, Debug, PartialEq, Eq)]
+enum Exp {
+    /// the elements that replace the operands, top first
+    Ok(Vec<u64>),
+    /// the procedure must fail (zero divisor)
+    Fail,
+}
+
+fn split(c: u64) -> Vec<u64> {
+    vec![c >> 32, c & M32]
+}
+
+fn ref_u64(name: &str, ops: &[u64]) -> Exp {
+    let flag = |b: bool| Exp::Ok(vec![b as u64]);
+    match name {
+        "eqz" | "clz" | "ctz" | "clo" | "cto" => {
+            let a = (ops[0] << 32) | ops[1];
+            Exp::Ok(vec![match name {
+                "eqz" => (a == 0) as u64,
+                "clz" => a.leading_zeros() as u64,
+                "ctz" => a.trailing_zeros() as u64,
+                "clo" => a.leading_ones() as u64,
+                _ => a.trailing_ones() as u64,
+            }])
+        }
+        "shl" | "shr" | "rotl" | "rotr" => {
+            let n = ops[0] as u32;
+            assert!(n < 64);
+            let a = (ops[1] << 32) | ops[2];
+            Exp::Ok(split(match name {
+                "shl" => a << n,
+                "shr" => a >> n,
+                "rotl" => a.rotate_left(n),
+                _ => a.rotate_right(n),
+            }))
+        }
+        _ => {
+            let b = (ops[0] << 32) | ops[1];
+            let a = (ops[2] << 32) | ops[3];
+            match name {
+                "overflowing_add" => {
+                    let (c, o) = a.overflowing_add(b);
+                    Exp::Ok([vec![o as u64], split(c)].concat())
+                }
+                "wrapping_add" => Exp::Ok(split(a.wrapping_add(b))),
+                "wrapping_sub" => Exp::Ok(split(a.wrapping_sub(b))),
+                "overflowing_sub" => {
+                    let (c, o) = a.overflowing_sub(b);
+                    Exp::Ok([vec![o as u64], split(c)].concat())
+                }
+                "wrapping_mul" => Exp::Ok(split(a.wrapping_mul(b))),
+                // "preserving the overflow": four limbs of the full 128-bit product
+                "overflowing_mul" => {
+                    let p = (a as u128) * (b as u128);
+                    Exp::Ok([split((p >> 64) as u64), split(p as u64)].concat())
+                }
+                "lt" => flag(a < b),
+                "gt" => flag(a > b),
+                "lte" => flag(a <= b),
+                "gte" => flag(a >= b),
+                "eq" => flag(a == b),
+                "neq" => flag(a != b),
+                "min" => Exp::Ok(split(a.min(b))),
+                "max" => Exp::Ok(split(a.max(b))),
+                "div" | "mod" | "divmod" if b == 0 => Exp::Fail,
+                "div" => Exp::Ok(split(a / b)),
+                "mod" => Exp::Ok(split(a % b)),
+                "divmod" => Exp::Ok([split(a % b), split(a / b)].concat()),
+                "and" => Exp::Ok(split(a & b)),
+                "or" => Exp::Ok(split(a | b)),
+                "xor" => Exp::Ok(split(a ^ b)),
+                _ => panic!("no reference for std::math::u64::{name}"),
+            }
+        }
+    }
+}
+
+/// top-first limbs [x7, .., x0] -> integer
+fn big_of(limbs_top_first: &[u64]) -> BigUint {
+    let le: Vec<u32> = limbs_top_first.iter().rev().map(|&x| x as u32).collect();
+    BigUint::new(le)
+}
+
+/// integer (< 2^256) -> top-first limbs [x7, .., x0]
+fn limbs_of(v: &BigUint) -> Vec<u64> {
+    let mut le: Vec<u64> = v.to_u32_digits().into_iter().map(|x| x as u64).collect();
+    assert!(le.len() <= 8);
+    le.resize(8, 0);
+    le.reverse();
+    le
+}
+
+fn ref_u256(name: &str, ops: &[u64]) -> Exp {
+    let two256 = BigUint::from(1u8) << 256;
+    if name == "iszero_unsafe" {
+        return Exp::Ok(vec![(big_of(&ops[0..8]) == BigUint::from(0u8)) as u64]);
+    }
+    let b = big_of(&ops[0..8]);
+    let a = big_of(&ops[8..16]);
+    match name {
+        "add_unsafe" => Exp::Ok(limbs_of(&((a + b) % two256))),
+        "sub_unsafe" => Exp::Ok(limbs_of(&((a + &two256 - b) % &two256))),
+        "mul_unsafe" => Exp::Ok(limbs_of(&((a * b) % two256))),
+        "and" => Exp::Ok(limbs_of(&(a & b))),
+        "or" => Exp::Ok(limbs_of(&(a | b))),
+        "xor" => Exp::Ok(limbs_of(&(a ^ b))),
+        "eq_unsafe" => Exp::Ok(vec![(a == b) as u64]),
+        _ => panic!("no reference for std::math::u256::{name}"),
+    }
+}
+
+fn reference(module: &str, name: &str, ops: &[u64]) -> Exp {
+    match module {
+        "u64" => ref_u64(name, ops),
+        "u256" => ref_u256(name, ops),
+        _ => panic!("unknown module {module}"),
+    }
+}
+
+// ------------------------------------------------------------------------------------------------
+// subject
+// ------------------------------------------------------------------------------------------------
+
+fn compile(module: &str, name: &str) -> Program {
+    let src = format!("use.std::math::{module}\nbegin\n    exec.{module}::{name}\nend");
+    assembler()
+        .compile(&src)
+        .unwrap_or_else(|e| panic!("family program must assemble: {src}: {e}"))
+}
+
+fn n_sentinels(n_ops: usize) -> usize {
+    12usize.max(16usize.saturating_sub(n_ops))
+}
+
+fn inputs(ops: &[u64]) -> Vec<u64> {
+    let mut st = ops.to_vec();
+    st.extend_from_slice(&SENT[..n_sentinels(ops.len())]);
+    st
+}
+
+/// `result ++ sentinels`; everything below is zero. The operand stack is conceptually infinite with
+/// zeros below the inputs (a procedure that temporarily goes below depth 16 makes the VM shift
+/// zeros in, which later end up in the overflow table: `u256::mul_unsafe` ends 4 deeper than
+/// `inputs - 8`), so both sides are compared with trailing zeros stripped; the sentinels are
+/// non-zero, so nothing that matters is lost.
+fn expected_stack(ops: &[u64], res: &[u64]) -> Vec<u64> {
+    let mut st = res.to_vec();
+    st.extend_from_slice(&SENT[..n_sentinels(ops.len())]);
+    st
+}
+
+fn strip_zeros(s: &[u64]) -> &[u64] {
+    let n = s.iter().rposition(|&x| x != 0).map(|i| i + 1).unwrap_or(0);
+    &s[..n]
+}
+
+// ------------------------------------------------------------------------------------------------
+// operand classes (for signatures)
+// ------------------------------------------------------------------------------------------------
+
+fn limb_class(x: u64) -> &'static str {
+    match x {
+        0 => "0",
+        M32 => "ffffffff",
+        _ => "other",
+    }
+}
+
+fn big_class(limbs: &[u64]) -> &'static str {
+    if limbs.iter().all(|&x| x == 0) {
+        "zero"
+    } else if limbs.iter().all(|&x| x == M32) {
+        "max"
+    } else {
+        "other"
+    }
+}
+
+fn signature(kind: &str, module: &str, name: &str, k: Kind, ops: &[u64]) -> Value {
+    let mut s = json!({"kind": kind, "proc": format!("std::math::{module}::{name}")});
+    let m = s.as_object_mut().unwrap();
+    match k {
+        Kind::Bin => {
+            m.insert("b_hi".into(), json!(limb_class(ops[0])));
+            m.insert("b_lo".into(), json!(limb_class(ops[1])));
+            m.insert("a_hi".into(), json!(limb_class(ops[2])));
+            m.insert("a_lo".into(), json!(limb_class(ops[3])));
+        }
+        Kind::Un => {
+            m.insert("a_hi".into(), json!(limb_class(ops[0])));
+            m.insert("a_lo".into(), json!(limb_class(ops[1])));
+        }
+        Kind::Shift => {
+            m.insert("shift_range".into(), json!(if ops[0] >= 32 { ">=32" } else { "<32" }));
+            m.insert("shift_mod32".into(), json!(if ops[0] % 32 == 0 { "0" } else { "!=0" }));
+            m.insert("a_hi".into(), json!(limb_class(ops[1])));
+            m.insert("a_lo".into(), json!(limb_class(ops[2])));
+        }
+        Kind::Bin256 => {
+            m.insert("b".into(), json!(big_class(&ops[0..8])));
+            m.insert("a".into(), json!(big_class(&ops[8..16])));
+        }
+        Kind::Un256 => {
+            m.insert("a".into(), json!(big_class(&ops[0..8])));
+        }
+    }
+    s
+}
+
+fn hex(v: &[u64]) -> String {
+    let parts: Vec<String> = v.iter().map(|x| format!("{x:x}")).collect();
+    format!("[{}]", parts.join(","))
+}
+
+// ------------------------------------------------------------------------------------------------
+// oracle
+// ------------------------------------------------------------------------------------------------
+
+/// returns the outcome class of the case (for the histograms); reports failures through ctx.fail
+fn judge(ctx: &Ctx, module: &str, name: &str, k: Kind, ops: &[u64], out: &Outcome, verbose: bool) -> &'static str {
+    let exp = reference(module, name, ops);
+    let case = json!({"module": module, "proc": name, "ops": ops});
+    let fail = |kind: &str, extra: Option<(&str, Value)>, detail: String| {
+        let mut sig = signature(kind, module, name, k, ops);
+        if let Some((key, v)) = extra {
+            sig.as_object_mut().unwrap().insert(key.into(), v);
+        }
+        ctx.fail(sig, format!("{module}::{name} operands(top first)={} {detail}", hex(ops)), case.clone());
+    };
+    if verbose {
+        match &exp {
+            Exp::Ok(r) => println!("expected: success, final stack (zeros below) = {}", hex(&expected_stack(ops, r))),
+            Exp::Fail => println!("expected: execution error (zero divisor)"),
+        }
+        match out {
+            Outcome::Ok(s) => println!("observed: success, final stack = {}", hex(s)),
+            o => println!("observed: {}", o.brief()),
+        }
+    }
+    match (out, &exp) {
+        (Outcome::Panic(p), _) => {
+            fail("panic", Some(("panic", json!(guard::short_panic(p)))), guard::short_panic(p));
+            "panic"
+        }
+        (Outcome::AsmErr(e), _) => panic!("family program must assemble: {e}"),
+        (Outcome::Ok(s), Exp::Ok(r)) => {
+            let want = expected_stack(ops, r);
+            let s = strip_zeros(s);
+            // the result part of the observation (zeros below a short stack)
+            let got: Vec<u64> = (0..r.len()).map(|i| s.get(i).copied().unwrap_or(0)).collect();
+            if s == &want[..] {
+                "ok_match"
+            } else if got != *r {
+                let below = if s.get(r.len()..) != Some(&want[r.len()..]) { " (and the stack below is disturbed)" } else { "" };
+                fail("wrong_result", None, format!("result={} expected={}{below}", hex(&got), hex(r)));
+                "wrong_result"
+            } else {
+                // (want ends with a non-zero sentinel, so any difference here is real)
+                fail(
+                    "stack_disturbed",
+                    None,
+                    format!("below the result: {} expected {}", hex(s.get(r.len()..).unwrap_or(&[])), hex(&want[r.len()..])),
+                );
+                "stack_disturbed"
+            }
+        }
+        (Outcome::Ok(s), Exp::Fail) => {
+            fail("zero_divisor_not_rejected", None, format!("succeeded with stack {}", hex(s)));
+            "zero_divisor_not_rejected"
+        }
+        (Outcome::Err(e), Exp::Ok(r)) => {
+            fail("unexpected_failure", Some(("error", json!(err_variant(e)))), format!("failed with {} expected result {}", e, hex(r)));
+            "unexpected_failure"
+        }
+        (Outcome::Err(_), Exp::Fail) => "failed_as_required",
+    }
+}
+
+// ------------------------------------------------------------------------------------------------
+// operand sets
+// ------------------------------------------------------------------------------------------------
+
+fn bin_cases(limbs: &[u64]) -> Vec<Vec<u64>> {
+    // [b_hi, b_lo, a_hi, a_lo]
+    mcx::space::tuples(limbs, 4)
+}
+
+fn single_bits() -> Vec<u64> {
+    (0..64).map(|i| 1u64 << i).collect()
+}
+
+fn runs_of_ones() -> Vec<u64> {
+    let mut v = vec![];
+    for start in 0..64u32 {
+        for len in 1..=(64 - start) {
+            let ones = if len == 64 { u64::MAX } else { (1u64 << len) - 1 };
+            v.push(ones << start);
+        }
+    }
+    v
+}
+
+fn all_but_one_bit() -> Vec<u64> {
+    (0..64).map(|i| !(1u64 << i)).collect()
+}
+
+/// the 64-bit values used for unary procedures: all limb pairs, single bits, runs of ones,
+/// all-ones-but-one-bit (de-duplicated, ascending)
+fn unary_values(limbs: &[u64]) -> Vec<u64> {
+    let mut s: BTreeSet<u64> = BTreeSet::new();
+    for &hi in limbs {
+        for &lo in limbs {
+            s.insert((hi << 32) | lo);
+        }
+    }
+    s.extend(single_bits());
+    s.extend(runs_of_ones());
+    s.extend(all_but_one_bit());
+    s.into_iter().collect()
+}
+
+/// the 64-bit values used for shifts / rotations
+fn shift_values(limbs: &[u64], tier: Tier) -> Vec<u64> {
+    let mut s: BTreeSet<u64> = BTreeSet::new();
+    for &hi in limbs {
+        for &lo in limbs {
+            s.insert((hi << 32) | lo);
+        }
+    }
+    if tier == Tier::Thorough {
+        s.extend(single_bits());
+        s.extend(runs_of_ones());
+        s.extend(all_but_one_bit());
+    }
+    s.into_iter().collect()
+}
+
+fn u256_values(tier: Tier) -> Vec<[u64; 8]> {
+    // limbs little-endian here (x0 first); converted to top-first when the case is built
+    let mut s: BTreeSet<[u64; 8]> = BTreeSet::new();
+    let mut put = |le: [u64; 8]| {
+        s.insert(le);
+    };
+    put([0; 8]);
+    put([1, 0, 0, 0, 0, 0, 0, 0]);
+    put([2, 0, 0, 0, 0, 0, 0, 0]);
+    put([M32; 8]); // 2^256 - 1
+    put([M32 - 1, M32, M32, M32, M32, M32, M32, M32]); // 2^256 - 2
+    for i in 0..8 {
+        let mut x = [0u64; 8];
+        x[i] = M32; // one limb all ones
+        put(x);
+        let mut y = [0u64; 8];
+        y[i] = 1; // 2^(32 i)  (includes 1 and 2^128)
+        put(y);
+        let mut z = [M32; 8];
+        z[i] = 0; // all ones but one limb
+        put(z);
+    }
+    put([0, 0, 0, 0, 0, 0, 0, 1 << 31]); // 2^255
+    put([M32, M32, M32, M32, 0, 0, 0, 0]); // 2^128 - 1
+    put([0, 0, 0, 0, M32, M32, M32, M32]); // 2^256 - 2^128
+    put([M32, 0, M32, 0, M32, 0, M32, 0]); // alternating limbs
+    put([0, M32, 0, M32, 0, M32, 0, M32]);
+    put([0x5555_5555; 8]);
+    put([0xAAAA_AAAA; 8]);
+    put([1 << 31; 8]);
+    put([1 << 16; 8]);
+    put([1, 2, 3, 4, 5, 6, 7, 8]); // counting pattern
+    put([M32, M32 - 1, M32 - 2, M32 - 3, M32 - 4, M32 - 5, M32 - 6, M32 - 7]);
+    if tier == Tier::Thorough {
+        for k in 0..256usize {
+            let mut x = [0u64; 8];
+            x[k / 32] = 1 << (k % 32); // 2^k
+            put(x);
+            let mut y = [0u64; 8]; // 2^(k+1) - 1
+            for (i, l) in y.iter_mut().enumerate() {
+                *l = if i < k / 32 {
+                    M32
+                } else if i == k / 32 {
+                    (1u64 << (k % 32 + 1)) - 1
+                } else {
+                    0
+                };
+            }
+            put(y);
+        }
+    }
+    s.into_iter().collect()
+}
+
+fn top_first(le: &[u64; 8]) -> Vec<u64> {
+    le.iter().rev().cloned().collect()
+}
+
+// ------------------------------------------------------------------------------------------------
+// driver
+// ------------------------------------------------------------------------------------------------
+
+fn exported(module_path: &str) -> BTreeSet<String> {
+    use assembly::Library;
+    let lib = stdlib::StdLibrary::default();
+    let m = lib
+        .modules()
+        .find(|m| m.path.to_string() == module_path)
+        .unwrap_or_else(|| panic!("module {module_path} not in StdLibrary"));
+    let mut s: BTreeSet<String> =
+        m.ast.procs().iter().filter(|p| p.is_export).map(|p| p.name.to_string()).collect();
+    s.extend(m.ast.reexported_procs().iter().map(|p| p.name().to_string()));
+    s
+}
+
+struct FamilyStats {
+    cases: u64,
+    classes: BTreeMap<&'static str, u64>,
+    distinct_results: usize,
+    nontrivial: u64,
+}
+
+/// runs all `cases` (operand vectors, top first) of one procedure
+fn run_family(ctx: &Ctx, module: &str, name: &str, k: Kind, cases: &[Vec<u64>]) -> FamilyStats {
+    let prog = compile(module, name);
+    // determinism of the machinery: the first 50 cases are run twice
+    for ops in cases.iter().take(50) {
+        let a = run_program(&prog, &inputs(ops), &[]);
+        let b = run_program(&prog, &inputs(ops), &[]);
+        assert!(a == b, "non-deterministic observation for {module}::{name} {ops:?}");
+    }
+    let nontrivial = AtomicU64::new(0);
+    let results: Vec<(&'static str, Option<Vec<u64>>)> = cases
+        .par_iter()
+        .map(|ops| {
+            let out = run_program(&prog, &inputs(ops), &[]);
+            let class = judge(ctx, module, name, k, ops, &out, false);
+            let res = match &out {
+                Outcome::Ok(s) => {
+                    let n = match reference(module, name, ops) {
+                        Exp::Ok(r) => r.len(),
+                        Exp::Fail => 0,
+                    };
+                    Some(s[..n.min(s.len())].to_vec())
+                }
+                _ => None,
+            };
+            // non-trivial: some operand limb is non-zero and the outcome is a failure or a result
+            // with a non-zero element
+            let ops_nonzero = ops.iter().any(|&x| x != 0);
+            let res_nonzero = res.as_ref().map(|r| r.iter().any(|&x| x != 0)).unwrap_or(true);
+            if ops_nonzero && res_nonzero {
+                nontrivial.fetch_add(1, Ordering::Relaxed);
+            }
+            (class, res)
+        })
+        .collect();
+    let mut classes: BTreeMap<&'static str, u64> = BTreeMap::new();
+    let mut distinct: BTreeSet<&Vec<u64>> = BTreeSet::new();
+    for (c, r) in &results {
+        *classes.entry(c).or_insert(0) += 1;
+        if let Some(r) = r {
+            distinct.insert(r);
+        }
+    }
+    FamilyStats { cases: cases.len() as u64, classes, distinct_results: distinct.len(), nontrivial: nontrivial.into_inner() }
+}
+
+fn kind_of(module: &str, name: &str) -> Kind {
+    let table: &[(&str, Kind)] = if module == "u64" { &U64_PROCS } else { &U256_PROCS };
+    table
+        .iter()
+        .find(|(n, _)| *n == name)
+        .map(|(_, k)| *k)
+        .unwrap_or_else(|| panic!("no reference for std::math::{module}::{name}"))
+}
+
+/// Keeps glibc from mmap-ing / unmapping every trace column of every run: with 16 threads the
+/// page faults and munmap calls serialise on the process' mm lock and dominate the run time
+/// (measured: u256::mul_unsafe 36 ms per case instead of 0.5 ms). Purely a performance setting.
+pub(crate) fn tune_allocator() {
+    unsafe {
+        libc::mallopt(libc::M_MMAP_THRESHOLD, 32 << 20);
+        libc::mallopt(libc::M_TRIM_THRESHOLD, 1 << 30);
+        libc::mallopt(libc::M_TOP_PAD, 16 << 20);
+    }
+}
+
+pub fn run(ctx: &Ctx, replay: Option<&Value>) -> i32 {
+    tune_allocator();
+    if let Some(case) = replay {
+        let module = case["module"].as_str().expect("case.module");
+        let name = case["proc"].as_str().expect("case.proc");
+        let ops: Vec<u64> = case["ops"].as_array().expect("case.ops").iter().map(|x| x.as_u64().unwrap()).collect();
+        let k = kind_of(module, name);
+        let prog = compile(module, name);
+        println!("program: use.std::math::{module} begin exec.{module}::{name} end");
+        println!("stack inputs (top first) = {}", hex(&inputs(&ops)));
+        let out = run_program(&prog, &inputs(&ops), &[]);
+        let class = judge(ctx, module, name, k, &ops, &out, true);
+        println!("verdict for this case: {class}");
+        return ctx.finish("exploration", json!({}), &[]);
+    }
+
+    // the procedure lists are a computed fact: exports of the loaded library == procedures with a reference
+    let exp64 = exported("std::math::u64");
+    let have64: BTreeSet<String> = U64_PROCS.iter().map(|(n, _)| n.to_string()).collect();
+    assert!(exp64 == have64, "exports of std::math::u64 {exp64:?} differ from the procedures this check has a reference for {have64:?}");
+    let exp256 = exported("std::math::u256");
+    let have256: BTreeSet<String> = U256_PROCS.iter().map(|(n, _)| n.to_string()).collect();
+    assert!(exp256 == have256, "exports of std::math::u256 {exp256:?} differ from the procedures this check has a reference for {have256:?}");
+
+    let limbs: &[u64] = match ctx.tier {
+        Tier::Quick => &LIMBS7,
+        Tier::Thorough => &LIMBS16,
+    };
+    let bin = bin_cases(limbs);
+    let un: Vec<Vec<u64>> = unary_values(limbs).into_iter().map(split).collect();
+    let shv = shift_values(limbs, ctx.tier);
+    assert!(shv.len() >= 24 && shv.contains(&M32) && shv.contains(&((M32 << 32) | 1)));
+    let mut sh: Vec<Vec<u64>> = Vec::with_capacity(shv.len() * 64);
+    for &v in &shv {
+        for n in 0..64u64 {
+            sh.push(vec![n, v >> 32, v & M32]);
+        }
+    }
+    let v256 = u256_values(ctx.tier);
+    assert!(v256.len() >= 28);
+    let un256: Vec<Vec<u64>> = v256.iter().map(top_first).collect();
+    let mut bin256: Vec<Vec<u64>> = Vec::with_capacity(v256.len() * v256.len());
+    for a in &v256 {
+        for b in &v256 {
+            bin256.push([top_first(b), top_first(a)].concat());
+        }
+    }
+
+    let mut per_proc = serde_json::Map::new();
+    let mut evaluations = 0u64;
+    let mut nontrivial = 0u64;
+    let mut class_hist: BTreeMap<&'static str, u64> = BTreeMap::new();
+    let families: Vec<(&str, &str, Kind)> = U64_PROCS
+        .iter()
+        .map(|(n, k)| ("u64", *n, *k))
+        .chain(U256_PROCS.iter().map(|(n, k)| ("u256", *n, *k)))
+        .collect();
+    for (module, name, k) in &families {
+        let cases: &Vec<Vec<u64>> = match k {
+            Kind::Bin => &bin,
+            Kind::Un => &un,
+            Kind::Shift => &sh,
+            Kind::Bin256 => &bin256,
+            Kind::Un256 => &un256,
+        };
+        let t0 = std::time::Instant::now();
+        let st = run_family(ctx, module, name, *k, cases);
+        evaluations += st.cases;
+        nontrivial += st.nontrivial;
+        for (c, n) in &st.classes {
+            *class_hist.entry(c).or_insert(0) += n;
+        }
+        per_proc.insert(
+            format!("{module}::{name}"),
+            json!({
+                "cases": st.cases,
+                "outcome_classes": st.classes,
+                "distinct_observed_results": st.distinct_results,
+                "wall_s": (t0.elapsed().as_secs_f64() * 1000.0).round() / 1000.0,
+            }),
+        );
+        // one written-out sample per few families
+        if ctx.want_sample() && matches!(*name, "overflowing_mul" | "divmod" | "shr" | "rotr" | "clo" | "sub_unsafe" | "mul_unsafe") {
+            let ops = &cases[cases.len() / 3];
+            ctx.sample(json!({
+                "proc": format!("std::math::{module}::{name}"),
+                "operands_top_first": hex(ops),
+                "reference": match reference(module, name, ops) { Exp::Ok(r) => hex(&r), Exp::Fail => "must fail".into() },
+            }));
+        }
+    }
+
+    // outside the quantifier of the property (amounts 0..=63), recorded only: the doc comments
+    // promise an error for a shift amount outside [0, 64)
+    let mut out_of_range = serde_json::Map::new();
+    for name in ["shl", "shr", "rotl", "rotr"] {
+        let prog = compile("u64", name);
+        let mut h: BTreeMap<String, u64> = BTreeMap::new();
+        for amount in [64u64, 65, 96, M32] {
+            for v in [1u64, (M32 << 32) | 1] {
+                let out = run_program(&prog, &inputs(&[amount, v >> 32, v & M32]), &[]);
+                *h.entry(out.kind().to_string()).or_insert(0) += 1;
+            }
+        }
+        out_of_range.insert(name.into(), json!(h));
+    }
+
+    let cov = json!({
+        "evaluations": evaluations,
+        "distinct_nontrivial": nontrivial,
+        "rule": "case = (procedure, operand tuple); all cases of a procedure are distinct by construction (operand sets are de-duplicated); non-trivial = at least one operand limb is non-zero and the observed outcome is a failure or a result with a non-zero element",
+        "limb_alphabet": limbs.iter().map(|x| format!("{x:#x}")).collect::<Vec<_>>(),
+        "u64_binary_pairs": bin.len(),
+        "u64_binary_procedures": U64_PROCS.iter().filter(|(_, k)| *k == Kind::Bin).count(),
+        "u64_unary_values": un.len(),
+        "u64_shift_values": shv.len(),
+        "u64_shift_amounts": "0..=63 (all)",
+        "u64_shift_cases_per_procedure": sh.len(),
+        "u256_operand_values": v256.len(),
+        "u256_pairs": bin256.len(),
+        "sentinels_below_operands": "max(12, 16 - #operands) pairwise distinct non-u32 field elements; whole final stack compared",
+        "procedures_u64": exp64.iter().collect::<Vec<_>>(),
+        "procedures_u256": exp256.iter().collect::<Vec<_>>(),
+        "per_procedure": per_proc,
+        "outcome_classes": class_hist,
+        "out_of_range_shift_amounts_observed_only": out_of_range,
+        "exhaustive": true,
+        "bounds": "every exported procedure x the full product of the stated operand sets; nothing sampled, no cap",
+    });
+    ctx.finish(
+        "exploration",
+        cov,
+        &[
+            "operands are valid u32 limbs only (the procedures document undefined behaviour otherwise)",
+            "u256 add/sub/and/or/xor/eq/iszero have no doc comment; the u64 convention is assumed: b on top of a, most significant limb on top, c = a op b, result limbs most significant on top",
+            "overflowing_mul is taken to return the four limbs of the full 128-bit product (the doc comment's '% 2^64' contradicts its own four-limb result)",
+            "reference = Rust u64/u128/num-bigint arithmetic; the limb alphabet bounds the operands explored",
+        ],
+    )
 }
